@@ -39,6 +39,10 @@ import (
 const (
 	daBlock = time.Second
 	phase   = 507 * time.Millisecond // harness observation instants never coincide with loop timers
+	// lostHorizon: after a history in which a Submit call got NO answer (the request was lost: the call returns only
+	// when the caller gives it up) the accepting phase is this many DA blocks longer, so that the node can abandon the
+	// call (the code under test does so after 60 s) and send the blobs again before completion is demanded.
+	lostHorizon = 90
 )
 
 // unit is one configuration × chain content; the fault choices below it are enumerated by explore.Explore.
@@ -158,6 +162,7 @@ type outcome struct {
 	events []event
 	sig    string
 	engine string // machinery problem (never a verdict)
+	lost   int    // Submit calls of this execution that got no answer
 }
 
 type item struct {
@@ -247,6 +252,8 @@ func bubble(c *explore.Ctx, u unit, horizon int, root string) (out outcome) {
 	}
 	armed := false   // crash / fault choices only while the loops run
 	settled := false // after the fault phase the DA accepts everything
+	lostCalls := 0   // Submit calls that got no answer
+	defer func() { out.lost = lostCalls }()
 	var tags []string
 	addTag := func(s string) {
 		for _, x := range tags {
@@ -385,7 +392,14 @@ func bubble(c *explore.Ctx, u unit, horizon int, root string) (out outcome) {
 			addTag("crash")
 			n.Fate.Die()
 		}
-		a := world.SubmitAnswer(c.Choose("da", int(world.NumSubmitAnswers)))
+		menuN := int(world.NumSubmitAnswersWithLoss)
+		if os.Getenv("C06_MENU8") != "" { // TEMP
+			menuN = 8
+		}
+		a := world.SubmitAnswer(c.Choose("da", menuN)) // the 8 answers, or no answer at all
+		if a == world.SubmitNoAnswer {
+			lostCalls++
+		}
 		if a != world.SubmitAcceptAll {
 			ev("da:%s(%d blobs)", a, len(blobs))
 			addTag("da:" + a.String())
@@ -505,6 +519,16 @@ func bubble(c *explore.Ctx, u unit, horizon int, root string) (out outcome) {
 			startLoops()
 		}
 	}
+	// a request that got no answer keeps its loop waiting until the node gives the call up: the accepting phase goes on
+	// for lostHorizon more DA blocks (nothing is produced, nothing crashes, the DA layer accepts whatever it is sent)
+	accepting := horizon - horizon/2
+	if lostCalls > 0 && fail == nil && !n.Fate.Crashed() {
+		accepting += lostHorizon
+		time.Sleep(lostHorizon * daBlock)
+		synctest.Wait()
+		ev("after %d more accepting DA blocks", lostHorizon)
+		checkWatermarks("after the lost-request horizon")
+	}
 	// a cancelled loop may win one more select round against ctx.Done() (Go picks at random); when the run ends inside
 	// the fault phase (a violation was found) that round must not consume decision points
 	armed = false
@@ -588,9 +612,9 @@ func bubble(c *explore.Ctx, u unit, horizon int, root string) (out outcome) {
 		// liveness: the DA accepted everything for horizon/2 ticks
 		if fail == nil {
 			if len(firstSeenH) != int(h-initial+1) {
-				setFail(&world.Fail{Clause: "liveness", Msg: fmt.Sprintf("the DA layer accepted every submission for %d DA blocks, yet it holds headers %v of the committed heights %d..%d", horizon-horizon/2, firstSeenH, initial, h)})
+				setFail(&world.Fail{Clause: "liveness", Msg: fmt.Sprintf("the DA layer accepted every submission for %d DA blocks, yet it holds headers %v of the committed heights %d..%d", accepting, firstSeenH, initial, h)})
 			} else if len(firstSeenD) != len(nonEmpty) {
-				setFail(&world.Fail{Clause: "liveness", Msg: fmt.Sprintf("the DA layer accepted every submission for %d DA blocks, yet it holds data %v of the non-empty heights %v", horizon-horizon/2, firstSeenD, nonEmpty)})
+				setFail(&world.Fail{Clause: "liveness", Msg: fmt.Sprintf("the DA layer accepted every submission for %d DA blocks, yet it holds data %v of the non-empty heights %v", accepting, firstSeenD, nonEmpty)})
 			} else if n.M.VerifLastSubmittedHeader() != h {
 				setFail(&world.Fail{Clause: "liveness", Msg: fmt.Sprintf("all headers are on the DA layer but the header watermark is %d, chain height %d", n.M.VerifLastSubmittedHeader(), h)})
 			}
@@ -648,6 +672,7 @@ type unitStat struct {
 	Executions int64 `json:"executions"`
 	MaxDepth   int64 `json:"max_depth"`
 	Capped     bool  `json:"capped"`
+	Lost       int64 `json:"executions_with_unanswered_request"`
 }
 
 type job struct {
@@ -676,6 +701,7 @@ func TestCheck(t *testing.T) {
 		"virtual time (testing/synctest): DA block time 1 s, mempool TTL 2 DA blocks; the two submission loops are started 1 ms apart (both orders explored) so that their timers never coincide",
 		"'accepted by the DA layer' = stored by the DA double (including stored-but-acknowledgement-lost)",
 		"liveness horizon: after the fault phase the DA accepts everything for horizon/2 DA blocks",
+		fmt.Sprintf("DA answer menu per Submit call of the fault phase: the 8 answers of the DA double (accepted, only the first blob accepted, timed out / not included, already in mempool, too big, generic error, stored but acknowledgement lost, cancelled) and a ninth, NO ANSWER: the request is lost, nothing is stored, the call returns only when its context is done (with the context's error). The node cannot tell a lost request from a slow one, so in histories with a lost request the accepting phase is %d DA blocks longer (the code under test gives an attempt up after 60 s); all oracles (watermark sound / monotone, order, no re-submission below the watermark, completion) are the same", lostHorizon),
 		"crash points: before every Submit call and before every durable write made by the submission loops (cache files are not written at a crash; the next process finds those of the last clean stop, if any)",
 		"clean restart: at most one per history, at any of the horizon/2 observation instants of the fault phase (one per DA block): loops cancelled, SaveCache, new process on the same store and cache directory",
 		"the block at the initial height is the genesis block the manager stores at start-up (always empty); all later blocks are made from the sequencing double's batches; all but the last are committed before submission starts, the last one two DA blocks into it",
@@ -748,6 +774,9 @@ func TestCheck(t *testing.T) {
 	claim, shardDir, firstShard := claimer(r)
 	started := time.Now()
 	deadline := vf.Pick(r, 100*time.Second, 25*time.Minute)
+	if d, err := time.ParseDuration(os.Getenv("C06_DEADLINE")); err == nil && d > 0 { // TEMP
+		deadline = d
+	}
 	var st explore.Stats
 	var caps []string
 	stats := make([]*unitStat, len(jobs))
@@ -762,8 +791,12 @@ func TestCheck(t *testing.T) {
 		if !claim(j) {
 			continue
 		}
+		var lostExecs atomic.Int64
 		s := explore.Explore(explore.Config{Budgets: pt.Budgets, Total: pt.Total, Deadline: left}, func(c *explore.Ctx) {
 			o := body(t, c, u, horizon)
+			if o.lost > 0 {
+				lostExecs.Add(1)
+			}
 			if o.engine != "" {
 				r.EngineError(fmt.Sprintf("%s: %s", u, o.engine))
 			}
@@ -788,7 +821,7 @@ func TestCheck(t *testing.T) {
 		if s.MaxDepth > st.MaxDepth {
 			st.MaxDepth = s.MaxDepth
 		}
-		stats[j] = &unitStat{s.Executions, s.MaxDepth, s.Capped != ""}
+		stats[j] = &unitStat{s.Executions, s.MaxDepth, s.Capped != "", lostExecs.Load()}
 		if shardDir != "" {
 			bz, _ := json.Marshal(stats[j])
 			tmp := filepath.Join(shardDir, fmt.Sprintf("c06-unit-%d.tmp", j))
@@ -800,7 +833,7 @@ func TestCheck(t *testing.T) {
 	if notStarted > 0 {
 		caps = append(caps, fmt.Sprintf("deadline %s reached: %d of %d units not started by this process", deadline, notStarted, len(jobs)))
 	}
-	bounds := map[string]any{"horizon_da_blocks": horizon, "clean_restart_instants": horizon / 2, "units": len(jobs), "max_decision_points": st.MaxDepth}
+	bounds := map[string]any{"da_answer_menu": int(world.NumSubmitAnswersWithLoss), "lost_request_horizon_da_blocks": lostHorizon, "horizon_da_blocks": horizon, "clean_restart_instants": horizon / 2, "units": len(jobs), "max_decision_points": st.MaxDepth}
 	// measured totals over all shards (by whichever shard ran the unit). Shard 0 — whose coverage record carries the
 	// bounds — waits for the others' records; a record that does not arrive only makes the breakdown incomplete.
 	if firstShard {
@@ -826,7 +859,7 @@ func TestCheck(t *testing.T) {
 		var depth int64
 		var plist []map[string]any
 		for pi, inf := range infos {
-			var all, onRepeat int64
+			var all, onRepeat, lost int64
 			missing := 0
 			for j, jb := range jobs {
 				if jb.part != pi {
@@ -840,6 +873,7 @@ func TestCheck(t *testing.T) {
 					continue
 				}
 				all += us.Executions
+				lost += us.Lost
 				if jb.u.repeats() > 0 {
 					onRepeat += us.Executions
 				}
@@ -850,7 +884,7 @@ func TestCheck(t *testing.T) {
 			m := map[string]any{"part": inf.Name, "blocks": inf.Seq + 1, "sequenced_blocks": inf.Seq, "one_clean_restart": inf.Restart, "budgets": inf.Budgets,
 				"chains": inf.Chains, "chains_with_repeated_tx_list": inf.RepeatChains, "chains_with_adjacent_repeat": inf.Adjacent,
 				"chains_with_repeat_across_empty_block": inf.OverEmpty, "chains_with_repeat_across_other_block": inf.OverOther,
-				"units": inf.Units, "executions": all, "executions_on_chains_with_repeated_tx_list": onRepeat}
+				"units": inf.Units, "executions": all, "executions_on_chains_with_repeated_tx_list": onRepeat, "executions_in_which_a_request_got_no_answer": lost}
 			if inf.Total > 0 {
 				m["max_faults_plus_crashes"] = inf.Total
 			}
@@ -864,7 +898,7 @@ func TestCheck(t *testing.T) {
 	}
 	r.Finish(vf.Coverage{
 		Evaluations: st.Executions, DistinctNontrivial: int64(r.DistinctOutcomes()), States: st.Executions, Transitions: st.Points,
-		Rule:       "per part (see bounds): every chain content up to renaming of transaction lists (after the always-empty genesis block each block is empty, carries a new list, or a list byte-identical to that of ANY earlier block: adjacent repeats, repeats across an empty block, repeats across another non-empty block, triple repeats; Bell(n+1) chains of n sequenced blocks) × initial height {1,3} × loop start order × every sequence of DA answers (8-element menu per Submit call) and crash points (before each Submit, before each durable write of the loops; caches lost) within the part's deviation budgets, without or with one clean restart (at any DA block of the fault phase; cache files saved and reloaded); the real submission loops run under virtual time; distinct = distinct (first-acceptance orders, number of Submit calls)",
+		Rule:       "per part (see bounds): every chain content up to renaming of transaction lists (after the always-empty genesis block each block is empty, carries a new list, or a list byte-identical to that of ANY earlier block: adjacent repeats, repeats across an empty block, repeats across another non-empty block, triple repeats; Bell(n+1) chains of n sequenced blocks) × initial height {1,3} × loop start order × every sequence of DA answers (9-element menu per Submit call: 8 answers and 'no answer at all — the request is lost and the call stays open until the caller gives it up') and crash points (before each Submit, before each durable write of the loops; caches lost) within the part's deviation budgets, without or with one clean restart (at any DA block of the fault phase; cache files saved and reloaded); the real submission loops run under virtual time; distinct = distinct (first-acceptance orders, number of Submit calls)",
 		Exhaustive: true, Caps: caps,
 		Bounds: bounds,
 	})
